@@ -1,0 +1,53 @@
+// MIT License
+//
+// Copyright (c) 2022-2026 GoAkt Team
+//
+// Permission is hereby granted, free of charge, to any person obtaining a copy
+// of this software and associated documentation files (the "Software"), to deal
+// in the Software without restriction, including without limitation the rights
+// to use, copy, modify, merge, publish, distribute, sublicense, and/or sell
+// copies of the Software, and to permit persons to whom the Software is
+// furnished to do so, subject to the following conditions:
+//
+// The above copyright notice and this permission notice shall be included in all
+// copies or substantial portions of the Software.
+//
+// THE SOFTWARE IS PROVIDED "AS IS", WITHOUT WARRANTY OF ANY KIND, EXPRESS OR
+// IMPLIED, INCLUDING BUT NOT LIMITED TO THE WARRANTIES OF MERCHANTABILITY,
+// FITNESS FOR A PARTICULAR PURPOSE AND NONINFRINGEMENT. IN NO EVENT SHALL THE
+// AUTHORS OR COPYRIGHT HOLDERS BE LIABLE FOR ANY CLAIM, DAMAGES OR OTHER
+// LIABILITY, WHETHER IN AN ACTION OF CONTRACT, TORT OR OTHERWISE, ARISING FROM,
+// OUT OF OR IN CONNECTION WITH THE SOFTWARE OR THE USE OR OTHER DEALINGS IN THE
+// SOFTWARE.
+
+//go:build verif
+
+package remoteclient
+
+import (
+	"reflect"
+
+	"github.com/tochemey/goakt/v4/remote"
+)
+
+// VerifSerializerEntry is a read-only projection of one entry of the client's
+// frozen serializer slice. Verification harness only.
+type VerifSerializerEntry struct {
+	Type       reflect.Type
+	Serializer remote.Serializer
+}
+
+// VerifSerializerEntries returns the client's serializer entries in the order
+// resolveSerializer and the receive-side dispatcher evaluate them.
+// Verification harness only.
+func VerifSerializerEntries(c Client) []VerifSerializerEntry {
+	r, ok := c.(*client)
+	if !ok {
+		return nil
+	}
+	out := make([]VerifSerializerEntry, len(r.serializers))
+	for i := range r.serializers {
+		out[i] = VerifSerializerEntry{Type: r.serializers[i].iface, Serializer: r.serializers[i].serializer}
+	}
+	return out
+}
